@@ -6,7 +6,7 @@ from collections import defaultdict
 import networkx as nx
 import pysmiles
 from .read_cgsmiles import read_cgsmiles
-from .dialects import _fragment_node_parser
+from .dialects import _fragment_node_parser, _cg_fragment_node_parser
 from .pysmiles_utils import read_fragment_smiles
 from .cgsmiles_utils import read_fragment_cgsmiles
 
@@ -102,7 +102,7 @@ def collect_ring_number(smile_iter, token, node_count, rings):
 
     return smile_iter, token, partial_str, rings
 
-def strip_bonding_descriptors(fragment_string):
+def strip_bonding_descriptors(fragment_string, all_atom=True):
     """
     Processes a CGsmiles fragment string by
     stripping the bonding descriptors and storing
@@ -114,6 +114,9 @@ def strip_bonding_descriptors(fragment_string):
     ----------
     fragment_string: str
         a CGsmiles fragment string
+    all_atom: bool
+        if the fragment is all-atom (OpenSMILES) or a
+        CGsmiles graph; decides how annotations are read
 
     Returns
     -------
@@ -124,6 +127,7 @@ def strip_bonding_descriptors(fragment_string):
         to the nodes within the string
     """
     bond_to_order = {'-': 1, '=': 2, '#': 3, '$': 4, ':': 1.5, '.': 0}
+    node_parser = _fragment_node_parser if all_atom else _cg_fragment_node_parser
     smile_iter = PeekIter(fragment_string)
     bonding_descrpt = defaultdict(list)
     rings = defaultdict(list)
@@ -169,7 +173,7 @@ def strip_bonding_descriptors(fragment_string):
 
                 record_attributes=False
                 # here we do some post processing cleanup
-                node_attributes = _fragment_node_parser(attribute_str)
+                node_attributes = node_parser(attribute_str)
                 attributes[node_count].update(node_attributes)
 
                 smile = smile + atom + "]"
@@ -238,7 +242,7 @@ def fragment_iter(fragment_str, all_atom=True):
         delim = fragment.find('=', 0)
         fragname = fragment[1:delim]
         frag_smile = fragment[delim+1:]
-        smiles_str, bonding_descrpt, ez_isomers, attributes = strip_bonding_descriptors(frag_smile)
+        smiles_str, bonding_descrpt, ez_isomers, attributes = strip_bonding_descriptors(frag_smile, all_atom=all_atom)
         # read an all_atom fragment using OpenSMILES definition
         if all_atom:
             mol_graph = read_fragment_smiles(smiles_str,
